@@ -77,6 +77,11 @@ deriving DecidableEq, Repr
 inductive Err | indexError | valueError
 deriving DecidableEq, Repr
 
+/-- the queue entry `PackagesParser` builds for a derived pool file: `DownloadFile.from_path(path, check_size=True)`, then
+    `add_compression_variant(path, size, ...)` (which replaces the placeholder variant of the same suffix), `ignore_errors` set -/
+def poolDFile (pf : PoolFile) : DFile :=
+  { ((DFile.fromPath pf.path true false).addVariant pf.path pf.size.toNat none false) with ignoreErrors := pf.ignoreErrors }
+
 /-- insertion into `_pool_files` (a dict keyed by path) -/
 def putPool (pool : List PoolFile) (f : PoolFile) : List PoolFile :=
   if pool.any (·.path = f.path) then pool.map (fun x => if x.path = f.path then f else x) else pool ++ [f]
